@@ -113,7 +113,19 @@ def check(ctx, case):
         missing = [v for v in fmap.values() if not q.has_fluent(v)] + [v for v in omap.values() if not q.has_object(v)] + [v for v in amap.values() if not q.has_action(v)]
         if missing:
             raise Violation(f"{reader_name}:renamed-item-missing", f"names {missing} chosen by the writer are not in the re-read problem", case)
-        pairs, nstates = bisimulate(ctx, problem, q, fmap, omap, amap, case.get("depth", 2), case, sig_prefix=f"{reader_name}:", ignore_extra_fluents=("total-cost",))
+        try:
+            pairs, nstates = bisimulate(ctx, problem, q, fmap, omap, amap, case.get("depth", 2), case, sig_prefix=f"{reader_name}:", ignore_extra_fluents=("total-cost",))
+        except Violation as v:
+            if reader_name == "ai" and v.sig in ("ai:successor-differs", "ai:applicability-differs", "ai:goal-verdict-differs"):
+                # same two root causes as the C21 findings: the third-party `pddl` parser drops repeated operands of
+                # + - * / and repeated equal increase / decrease effects; attributed only when the trigger shape is there
+                from checks.c21 import arith_dedup_trigger, duplicate_incdec_trigger
+
+                if arith_dedup_trigger(case["problem"]):
+                    raise Violation("ai:semantics-differ:pddl-lib-arithmetic-operand-dedup", v.message, v.case, v.extra)
+                if duplicate_incdec_trigger(case["problem"]):
+                    raise Violation("ai:semantics-differ:pddl-lib-duplicate-effect-dedup", v.message, v.case, v.extra)
+            raise
         ctx.cls(f"bisimulated:{reader_name}")
         # plans
         if reader_name == "up":
